@@ -50,9 +50,67 @@ CV_NOTIFY = ("std::sync::Condvar::notify_one", "std::sync::Condvar::notify_all")
 
 def method(facts, trait, adt, name):
     p = facts.trait_method(trait, adt, name)
+    if p is None and trait == "std::ops::Drop" and name == "drop":
+        g = drop_glue(facts, adt)
+        if g is not None:
+            return g
     if p is None:
         raise CheckerError("anchor not found: <%s as %s>::%s" % (adt, trait, name))
     return facts.fn(p)
+
+
+def drop_glue(facts, adt):
+    """A struct of the crate that has no `Drop` impl of its own but fields (of types of the crate) that have one is destroyed by destroying
+    those fields in declaration order: that sequence as a body of its own, so that "what happens when a value of this type is dropped" is
+    one function to read whether the destructor is written on the type or on a part of it.  None when no field has a destructor."""
+    import re as _re
+    from core import Fn
+    a = facts.adts.get(adt)
+    if a is None or a["kind"] != "Struct":
+        return None
+    cache = facts.__dict__.setdefault("_drop_glue", {})
+    if adt in cache:
+        return cache[adt]
+    parts = []
+    for x in a["variants"][0]["fields"]:
+        fa = _re.sub(r"<.*$", "", x["ty"])
+        if fa in facts.adts and str(facts.adts[fa].get("file", "")).startswith("src/"):
+            d = facts.trait_method("std::ops::Drop", fa, "drop")
+            g = facts.fns.get(d) if d else drop_glue(facts, fa)
+            if g is not None:
+                parts.append((x["name"], x["ty"], g))
+    if not parts:
+        cache[adt] = None
+        return None
+    # the self type as the other impls of the type spell it (`util::sequential::SequentialWriter<W>`)
+    selfs = sorted({i.get("self_ty") or "" for i in facts.impls if i.get("self_adt") == adt and i.get("self_ty")})
+    sty = selfs[0] if selfs else adt
+    sid = "<%s as std::ops::Drop>::drop" % sty
+    line = a.get("line", 0)
+    L = lambda ty, nm=None: {"ty": ty, "adt": None, "name": nm, "mut": True}
+    locs = [L("()"), L("&mut " + sty, "self")]
+    blocks = []
+    for k, (fname, fty, g) in enumerate(parts):
+        r = len(locs)
+        locs.append(L("&mut " + fty))
+        locs.append(L("()"))
+        t = {"t": "call", "line": line, "exp": False, "callee": g.id, "callee_krate": "tiny_http", "gargs": [], "name": "drop", "res": g.id, "res_krate": "tiny_http", "res_kind": "item",
+             "res_name": g.id, "args": [{"k": "move", "pl": {"l": r, "p": []}}], "arg_tys": ["&mut " + fty], "dest": {"l": r + 1, "p": []}, "target": k + 1, "unwind": "continue", "fn_exp": False, "syn": True}
+        c = [i for i in facts.instances_of(g.id) if i["kind"] == "item"]
+        if len(c) == 1:
+            t["syn_to"] = c[0]["id"]
+        blocks.append({"cleanup": False, "stmts": [{"s": "assign", "line": line, "exp": False, "lhs": {"l": r, "p": []},
+                                                     "rhs": {"rv": "ref", "mut": True, "pl": {"l": 1, "p": ["*", {"f": 0, "n": fname, "ty": fty}]}}, "syn": True}], "term": t})
+    blocks.append({"cleanup": False, "stmts": [], "term": {"t": "return", "line": line, "exp": False}})
+    mir = {"blocks": blocks, "locals": locs, "argc": 1, "file": a.get("file"), "line": line}
+    if a.get("real_file"):
+        mir["real_file"] = a["real_file"]
+    rec = {"id": sid, "local": True, "synthetic": True, "def_kind": "AssocFn", "promoted": [], "mir": mir, "vis_pub": False, "impl_self_adt": adt, "impl_self": sty,
+           "impl_trait": "std::ops::Drop", "name": "drop"}
+    g = Fn(facts, rec)
+    facts.fns[sid] = g
+    cache[adt] = g
+    return g
 
 
 def origin_fields(o):
